@@ -21,6 +21,33 @@ def oracleGen (s0 : Int) (iso : Nat) : Gen (Int × Nat) :=
   { seed := fun s => (s, 0),
     intn := fun g n => (if g.1 = s0 ∧ g.2 = 0 then iso else (g.1.toNat + g.2 + 7) % (n + 1), (g.1, g.2 + 1)) }
 
+def hexOf (k : List Nat) : String := toHex (k.map UInt8.ofNat)
+
+def bytesOf? (s : String) : Option (List Nat) := (hexBytes? s).map (·.map (fun (b : UInt8) => b.toNat))
+
+/-- `votes:nodekey` or `rights:nodekey:ownerkey` -/
+def prod? (t : String) : Option (Producer × List Nat) :=
+  match t.splitOn ":" with
+  | [v, k] => match int? v, bytesOf? k with
+    | some v, some k => some (⟨v, k⟩, k)
+    | _, _ => none
+  | [v, k, o] => match int? v, bytesOf? k, bytesOf? o with
+    | some v, some k, some o => some (⟨v, k⟩, o)
+    | _, _, _ => none
+  | _ => none
+
+def sortProducers (l : List (Producer × List Nat)) : List (Producer × List Nat) :=
+  (l.toArray.qsort (fun a b => before a.1 b.1)).toList
+
+def natList? (s : String) : Option (List Nat) :=
+  if s = "-" then some [] else (s.splitOn ",").mapM nat?
+
+/-- generator whose draws after seeding with `s0` are the values Go drew from a fresh private
+    source (from the op line) -/
+def drawsGen (s0 : Int) (draws : List Nat) : Gen (Int × Nat) :=
+  { seed := fun s => (s, 0),
+    intn := fun g n => (if g.1 = s0 then draws.getD g.2 0 else (g.1.toNat + g.2 + 7) % (n + 1), (g.1, g.2 + 1)) }
+
 def stepC24 : List String → String
   | "cand" :: seed :: normal :: cands :: unclaimed :: voted :: iso :: env :: _ =>
       match (if seed = "none" then some none else (int? seed).map some), int? normal, int? cands, int? unclaimed, int? voted, nat? iso, envOps? env with
@@ -30,17 +57,18 @@ def stepC24 : List String → String
           | .error .noBlock => "err noblock"
           | .error .notEnough => "err notenough"
       | _, _, _, _, _, _, _ => "bad-op"
-  | "sort" :: ps =>
-      -- producers as votes:keyhex ; output: the keys in sorted order
-      match ps.mapM (fun t => match t.splitOn ":" with
-          | [v, k] => match int? v, hexBytes? k with
-            | some v, some k => some (Producer.mk v (k.map (fun (b : UInt8) => b.toNat)))
-            | _, _ => none
-          | _ => none) with
-      | some l =>
-          let sorted := (l.toArray.qsort (fun a b => before a b)).toList
-          " ".intercalate (sorted.map (fun (p : Producer) => toHex (p.key.map UInt8.ofNat)))
+  | "sort" :: _kind :: _reps :: ps =>
+      -- producers as votes:nodekeyhex ; output: the node keys in sorted order
+      match ps.mapM prod? with
+      | some l => " ".intercalate ((sortProducers l).map (fun (p : Producer × List Nat) => hexOf p.1.key))
       | none => "bad-op"
+  | "randv2" :: seed :: normal :: crc :: unclaimed :: draws :: env :: _blk :: ps =>
+      match int? seed, nat? normal, nat? crc, nat? unclaimed, natList? draws, envOps? env, ps.mapM prod? with
+      | some seed, some normal, some crc, some unclaimed, some draws, some env, some l =>
+          let owners := ((sortProducers l).drop unclaimed).map (fun (p : Producer × List Nat) => p.2)
+          let res := randomV2 (drawsGen seed draws) .local seed owners (normal + crc) env (0, 0)
+          if res.isEmpty then "-" else ",".intercalate (res.map hexOf)
+      | _, _, _, _, _, _, _ => "bad-op"
   | _ => "bad-op"
 
 def main : IO Unit := runPure stepC24
